@@ -11,6 +11,12 @@ def run(tier):
     rep.add_tlc(res, "one WebSocket connection with 2 calls + one HTTP request, stop at every point, all interleavings; stopped => answered / all tasks done / nothing executes")
     if res["distinct"] < 2000:
         raise vlib.ToolError("vacuity: stop config explored only %d states" % res["distinct"])
+    res = vlib.tlc("MC_Server", "MC_Server_live.cfg", workers=4, timeout=900, coverage=False)
+    rep.add_tlc(res, "liveness: under weak fairness of the server's own steps only, stop ~> stopped resolved (the peers owe nothing)")
+    res = vlib.tlc("MC_Server", "MC_Server_live_unfair.cfg", workers=4, timeout=900, coverage=False, expect_violation=True)
+    if res["violated"] != "Live_StopCompletes":
+        raise vlib.ToolError("vacuity: without fairness for the connection tasks Live_StopCompletes should fail (got %s)" % res["violated"])
+    rep.add_tlc(res, "vacuity guard of the liveness run: without fairness for the connection tasks the property fails, as it must")
     vlib.build_harness()
     n = 300 if tier == "quick" else 4000
     path = os.path.join(rep.wd, "trace-stop.ndjson")
